@@ -53,6 +53,15 @@ GuardsV == (Len(syms) >= 1 /\ syms[1] = "E") => \A p \in Params : ConnValid(Deco
 HRow(nv, nf, nsym, nss) == LET ss == [i \in 1..nsym |-> "E"] r == Decode(ss, nv, nf, nss, <<>>, <<0, 0, 0>>) IN
           [s |-> StrR(ss), nv |-> nv, nf |-> nf, nss |-> nss, ev |-> <<>>, sb |-> <<0, 0, 0>>, out |-> r.out, np |-> r.np, faces |-> r.faces]
 HeaderRows == (Emit /\ syms = <<>>) => \A nv \in 0..10, nf \in 0..5, nsym \in 0..5, nss \in 0..2 : PrintT(ToJson(HRow(nv, nf, nsym, nss)))
+\* attribute decoder headers over two small meshes: 0..2 announced attribute-data blocks x 0..2 decoders of (id -2..1, type 0..2, traversal 0..2)
+DecSet == {<<id, ty, tr>> : id \in -2..1, ty \in 0..2, tr \in 0..2}
+DecLists == {<<>>} \cup {<<a>> : a \in DecSet} \cup {<<a, b>> : a \in DecSet, b \in DecSet}
+HdRow(p, nad, decs) == LET r == Decode(syms, p[1], p[2], p[3], p[4], p[5])  h == HeaderCase(r, p[2], nad, decs) IN
+   [mode |-> "hd", s |-> StrR(syms), nv |-> p[1], nf |-> p[2], nss |-> p[3], ev |-> p[4], sb |-> p[5], nad |-> nad, decs |-> decs,
+    out |-> h.out, np |-> h.np, faces |-> h.faces, used |-> h.used, cnt |-> h.cnt]
+HdRows == (Emit /\ syms \in {<<"E">>, <<"E", "R">>}) =>
+   LET Acc == {p \in Params : Decode(syms, p[1], p[2], p[3], p[4], p[5]).out = "acc"} IN
+   Acc # {} => LET p == CHOOSE q \in Acc : TRUE IN \A nad \in 0..2, decs \in DecLists : PrintT(ToJson(HdRow(p, nad, decs)))
 Guards == Len(syms) >= 1 => \A p \in PSet : ConnValid(Decode(syms, p[1], p[2], p[3], p[4], p[5]))
 Spec == Init /\ [][Next]_syms
 =============================================================================
